@@ -7,6 +7,7 @@ from ..model import AnalysisError, norm_text
 from ..regs import class_lookup, class_mro
 from ..ruleir import apply_value, leaves
 from ..terms import Scope, T, children, walk
+from ..tutil import atom, cases, expand, specialise, unseq
 from .common import loc_of, project
 
 CORE = "autograd.core"
@@ -22,15 +23,68 @@ def _is_vspace_zeros(t, of):
 
 
 # ----------------------------------------------------------------------------------------- make_vjp / make_jvp
+KEEP = {
+    "autograd.tracer.trace",
+    "autograd.core.backward_pass",
+    "autograd.core.vspace",
+    "autograd.core.VJPNode.new_root",
+    "autograd.core.JVPNode.new_root",
+    "autograd.util.subval",
+    "autograd.util.subvals",
+    "autograd.core.add_outgrads",
+    "autograd.core.sum_outgrads",
+    "autograd.core.translate_vjp",
+    "autograd.core.translate_jvp",
+    "autograd.core.defvjp_argnums",
+    "autograd.core.defjvp_argnums",
+    "autograd.core.defjvp_argnum",
+    "autograd.core.defvjp_argnum",
+    "autograd.util.toposort",
+}
+
+
+def _is_none(t):
+    return t.op == "const" and t.value is None
+
+
+def none_test(is_x):
+    """oracle factory for `x is None`: decide(value) resolves `x is None`, `x is not None`, `x == None`, and the
+    truthiness of x (objects here are never falsy unless None)"""
+
+    def is_atom(a):
+        if a.op == "cmp" and a.opname in ("Is", "Eq") and ((is_x(a.l) and _is_none(a.r)) or (is_x(a.r) and _is_none(a.l))):
+            return "none"
+        if is_x(a):
+            return "truthy"
+        return None
+
+    def decide(val):
+        def d(a):
+            k = is_atom(a)
+            if k == "none":
+                return val
+            if k == "truthy":
+                return not val
+            return None
+
+        return d
+
+    return is_atom, decide
+
+
+def _tests(r, is_atom):
+    return [t for t in walk(r) if t.op == "if" and is_atom(atom(t.cond)[0])]
+
+
 def zero_paths(ctx, world):
-    ctx.describe("A13.zero", "an output independent of the input gives zeros of the right space and never None: make_vjp -> vspace(x).zeros() (argument's space); make_jvp -> vspace(end_value).zeros() (output's space); translate_vjp(None) -> zeros of vspace(args[argnum]); translate_jvp(None) -> zeros of vspace(ans); the (vjp, value) / (value, tangent) tuple orders")
+    ctx.describe("A13.zero", "an output independent of the input gives zeros of the right space and never None: make_vjp -> vspace(x).zeros() (argument's space); make_jvp -> vspace(end_value).zeros() (output's space); translate_vjp(None) -> zeros of vspace(args[argnum]); translate_jvp(None) -> zeros of vspace(ans); the (vjp, value) / (value, tangent) tuple orders.  Decided by case analysis on the `end_node is None` / `rule is None` / `rule == 'same'` / `callable(rule)` atoms, whatever the polarity, order or nesting of the tests")
     ev = world.ev
     # --- make_vjp
     r, syms, m, node, sc = eval_function(world, CORE, "make_vjp")
     loc = loc_of(m, node)
     q = "autograd.core.make_vjp"
     x, fun = syms["x"], syms["fun"]
-    r = strip_seq(r)
+    r = unseq(expand(ev, r, KEEP))
     tr = [t for t in walk(r) if is_call_to(t, "autograd.tracer.trace")]
     if not tr:
         raise AnalysisError("make_vjp no longer calls trace()")
@@ -39,46 +93,45 @@ def zero_paths(ctx, world):
     ctx.ob("A13.zero", "make_vjp: trace(VJPNode.new_root(), fun, x)", bool(okroot), loc)
     if not okroot:
         ctx.fail("A13.zero", "make_vjp:trace-call", f"{q}:trace-call", loc, "make_vjp does not call trace(VJPNode.new_root(), fun, x)", "any reverse-mode call")
-    is_val = lambda t: t.op == "sub" and t.obj is trc and t.idx.op == "const" and t.idx.value == 0
-    is_node = lambda t: t.op == "sub" and t.obj is trc and t.idx.op == "const" and t.idx.value == 1
-    if r.op == "if" and r.cond.op == "cmp" and r.cond.opname in ("Is", "Eq") and is_node(r.cond.l) and r.cond.r.op == "const" and r.cond.r.value is None:
-        none_b, dep_b = strip_seq(r.then), strip_seq(r.other)
-    elif r.op == "if" and r.cond.op == "cmp" and r.cond.opname in ("IsNot", "NotEq") and is_node(r.cond.l):
-        none_b, dep_b = strip_seq(r.other), strip_seq(r.then)
-    else:
+    is_val = lambda t: t.op == "sub" and same(t.obj, trc) and t.idx.op == "const" and t.idx.value == 0
+    is_node = lambda t: t.op == "sub" and same(t.obj, trc) and t.idx.op == "const" and t.idx.value == 1
+    is_atom, decide = none_test(is_node)
+    branches = []
+    if not _tests(r, is_atom):
         ctx.fail("A13.zero", "make_vjp:none-test", f"{q}:none-test", loc, "make_vjp does not test `end_node is None`", "a function whose output is independent of its input")
-        none_b = dep_b = None
-    for name, b in (("independent", none_b), ("dependent", dep_b)):
-        if b is None:
-            continue
-        if not (b.op == "tuple" and len(b.elts) == 2):
-            ctx.fail("A2.tuple", f"make_vjp:{name} returns a pair", f"{q}:{name}-pair", loc, "make_vjp does not return a (vjp, value) pair", "every caller destructures (vjp, value)")
-            continue
-        f, v = b.elts
-        ok = is_val(v) and f.op == "closure"
-        if ok:
-            ctx.ob("A2.tuple", f"make_vjp:{name} path returns (vjp function, end_value)", True, loc)
-        else:
-            ctx.fail("A2.tuple", f"make_vjp:{name} order", f"{q}:{name}-order", loc, f"make_vjp's {name} path does not return (vjp function, end_value) in that order (found {str(b)[:80]})", "make_vjp(f)(x): callers call element 0 and return element 1 as the primal value")
-            continue
-        g = T("sym", name="g", role="g")
-        res = strip_seq(ev.apply(f, [g], {}, []))
-        if name == "independent":
-            if _is_vspace_zeros(res, lambda t: t is x):
-                ctx.ob("A13.zero", "make_vjp: independent output -> vspace(x).zeros()", True, loc)
-            else:
-                ctx.fail("A13.zero", "make_vjp:zeros", f"{q}:zeros", loc, f"independent output does not give vspace(x).zeros() (found {str(res)[:80]})", "grad of a constant function w.r.t. an array/container argument: result is None / has the cotangent's space instead of the argument's")
-        else:
-            ok = is_call_to(res, "autograd.core.backward_pass") and len(res.args) == 2 and res.args[0] is g and is_node(res.args[1])
+    else:
+        branches = [("independent", specialise(r, decide(True))), ("dependent", specialise(r, decide(False)))]
+    for name, br in branches:
+        for c in cases(br):
+            b = c.leaf
+            if not (b.op == "tuple" and len(b.elts) == 2):
+                ctx.fail("A2.tuple", f"make_vjp:{name} returns a pair", f"{q}:{name}-pair", loc, "make_vjp does not return a (vjp, value) pair", "every caller destructures (vjp, value)")
+                continue
+            f, v = b.elts
+            ok = is_val(v) and f.op == "closure"
             if ok:
-                ctx.ob("A13.once", "make_vjp: vjp(g) = backward_pass(g, end_node), fresh state per call", True, loc)
+                ctx.ob("A2.tuple", f"make_vjp:{name} path returns (vjp function, end_value)", True, loc)
             else:
-                ctx.fail("A13.once", "make_vjp:backward", f"{q}:backward", loc, f"vjp(g) is not backward_pass(g, end_node) (found {str(res)[:80]})", "any reverse-mode call")
+                ctx.fail("A2.tuple", f"make_vjp:{name} order", f"{q}:{name}-order", loc, f"make_vjp's {name} path does not return (vjp function, end_value) in that order (found {str(b)[:80]})", "make_vjp(f)(x): callers call element 0 and return element 1 as the primal value")
+                continue
+            g = T("sym", name="g", role="g")
+            res = unseq(expand(ev, ev.apply(f, [g], {}, []), KEEP))
+            if name == "independent":
+                if _is_vspace_zeros(res, lambda t: t is x):
+                    ctx.ob("A13.zero", "make_vjp: independent output -> vspace(x).zeros()", True, loc)
+                else:
+                    ctx.fail("A13.zero", "make_vjp:zeros", f"{q}:zeros", loc, f"independent output does not give vspace(x).zeros() (found {str(res)[:80]})", "grad of a constant function w.r.t. an array/container argument: result is None / has the cotangent's space instead of the argument's")
+            else:
+                ok = is_call_to(res, "autograd.core.backward_pass") and len(res.args) == 2 and not res.kw and res.args[0] is g and is_node(res.args[1])
+                if ok:
+                    ctx.ob("A13.once", "make_vjp: vjp(g) = backward_pass(g, end_node), fresh state per call", True, loc)
+                else:
+                    ctx.fail("A13.once", "make_vjp:backward", f"{q}:backward", loc, f"vjp(g) is not backward_pass(g, end_node) (found {str(res)[:80]})", "any reverse-mode call")
     # --- make_jvp
     r, syms, m, node, sc = eval_function(world, CORE, "make_jvp.jvp")
     loc = loc_of(m, node)
     q = "autograd.core.make_jvp"
-    r = strip_seq(r)
+    r = unseq(expand(ev, r, KEEP))
     g = syms["g"]
     tr = [t for t in walk(r) if is_call_to(t, "autograd.tracer.trace")]
     if not tr:
@@ -90,93 +143,99 @@ def zero_paths(ctx, world):
         ctx.ob("A13.zero", "make_jvp: trace(JVPNode.new_root(g), fun, x)", True, loc)
     else:
         ctx.fail("A13.zero", "make_jvp:root", f"{q}:root", loc, "the forward-mode root node is not JVPNode.new_root(g)", "any forward-mode call")
-    is_val = lambda t: t.op == "sub" and t.obj is trc and t.idx.op == "const" and t.idx.value == 0
-    is_node = lambda t: t.op == "sub" and t.obj is trc and t.idx.op == "const" and t.idx.value == 1
-    if r.op == "if" and r.cond.op == "cmp" and is_node(r.cond.l) and r.cond.r.op == "const" and r.cond.r.value is None:
-        none_b, dep_b = (strip_seq(r.then), strip_seq(r.other)) if r.cond.opname in ("Is", "Eq") else (strip_seq(r.other), strip_seq(r.then))
-        ok1 = none_b.op == "tuple" and len(none_b.elts) == 2 and is_val(none_b.elts[0]) and _is_vspace_zeros(none_b.elts[1], is_val)
-        ok2 = dep_b.op == "tuple" and len(dep_b.elts) == 2 and is_val(dep_b.elts[0]) and dep_b.elts[1].op == "attr" and dep_b.elts[1].name == "g" and is_node(dep_b.elts[1].obj)
+    is_val = lambda t: t.op == "sub" and same(t.obj, trc) and t.idx.op == "const" and t.idx.value == 0
+    is_node = lambda t: t.op == "sub" and same(t.obj, trc) and t.idx.op == "const" and t.idx.value == 1
+    is_atom, decide = none_test(is_node)
+    if _tests(r, is_atom):
+        none_cs, dep_cs = cases(specialise(r, decide(True))), cases(specialise(r, decide(False)))
+        ok1 = bool(none_cs) and all(b.leaf.op == "tuple" and len(b.leaf.elts) == 2 and is_val(b.leaf.elts[0]) and _is_vspace_zeros(b.leaf.elts[1], is_val) for b in none_cs)
+        ok2 = bool(dep_cs) and all(b.leaf.op == "tuple" and len(b.leaf.elts) == 2 and is_val(b.leaf.elts[0]) and b.leaf.elts[1].op == "attr" and b.leaf.elts[1].name == "g" and is_node(b.leaf.elts[1].obj) for b in dep_cs)
         if ok1:
             ctx.ob("A13.zero", "make_jvp: independent output -> (end_value, vspace(end_value).zeros())", True, loc)
         else:
-            ctx.fail("A13.zero", "make_jvp:zeros", f"{q}:zeros", loc, f"independent output does not give (end_value, vspace(end_value).zeros()) (found {str(none_b)[:90]})", "forward mode of a constant function whose output space differs from the input's")
+            ctx.fail("A13.zero", "make_jvp:zeros", f"{q}:zeros", loc, f"independent output does not give (end_value, vspace(end_value).zeros()) (found {str(none_cs[0].leaf)[:90] if none_cs else None})", "forward mode of a constant function whose output space differs from the input's")
         if ok2:
             ctx.ob("A2.tuple", "make_jvp: dependent path returns (end_value, end_node.g)", True, loc)
         else:
-            ctx.fail("A2.tuple", "make_jvp:order", f"{q}:order", loc, f"dependent path does not return (end_value, end_node.g) (found {str(dep_b)[:90]})", "make_jvp(f)(x)(v): callers take element 1 as the tangent")
+            ctx.fail("A2.tuple", "make_jvp:order", f"{q}:order", loc, f"dependent path does not return (end_value, end_node.g) (found {str(dep_cs[0].leaf)[:90] if dep_cs else None})", "make_jvp(f)(x)(v): callers take element 1 as the tangent")
     else:
         ctx.fail("A13.zero", "make_jvp:none-test", f"{q}:none-test", loc, "make_jvp does not test `end_node is None`", "forward mode of a constant function")
-    # --- translate_vjp / translate_jvp
-    r, syms, m, node, sc = eval_function(world, CORE, "translate_vjp")
-    loc = loc_of(m, node)
-    r = strip_seq(r)
-    argnum = syms["argnum"]
-    okv = False
-    if r.op == "if" and r.cond.op == "cmp" and r.cond.l is syms["vjpfun"] and r.cond.r.op == "const" and r.cond.r.value is None and r.cond.opname in ("Is", "Eq"):
-        clo = strip_seq(r.then)
-        if clo.op == "closure":
-            rest0 = T("rest", start=0)
-            made = world.ev.apply(clo, [T("sym", name="ans", role="ans"), T("star", x=rest0)], {}, [T("kwrest")])
-            res = strip_seq(apply_value(world.ev, made, [T("sym", name="g", role="g")]))
-            okv = _is_vspace_zeros(res, lambda t: t.op == "sub" and t.obj.op == "rest" and t.obj.start == 0 and t.idx is argnum)
-        passthru = strip_seq(r.other)
-        okp = passthru.op == "if" and strip_seq(passthru.then) is syms["vjpfun"] and strip_seq(passthru.other).op == "raise"
-    else:
-        okp = False
-    if okv:
-        ctx.ob("A13.zero", "translate_vjp(None) -> zeros of vspace(args[argnum])", True, loc)
-    else:
-        ctx.fail("A13.zero", "translate_vjp:none", "autograd.core.translate_vjp:none", loc, "a None VJP rule does not give vspace(args[argnum]).zeros()", "a primitive with a None rule whose arguments have different shapes: the zero has another argument's space")
-    if okp:
-        ctx.ob("A6.raise", "translate_vjp: callable passes through, anything else raises", True, loc)
-    else:
-        ctx.fail("A6.raise", "translate_vjp:other", "autograd.core.translate_vjp:other", loc, "translate_vjp no longer returns the rule unchanged / raises for a malformed spec", "defvjp with a malformed rule")
-    r, syms, m, node, sc = eval_function(world, CORE, "translate_jvp")
-    loc = loc_of(m, node)
-    r = strip_seq(r)
-    argnum, fun, jf = syms["argnum"], syms["fun"], syms["jvpfun"]
-    ok_none = ok_same = ok_pass = False
-    cur = r
-    for _ in range(4):
-        if cur is None or cur.op != "if":
-            break
-        c = cur.cond
-        br = strip_seq(cur.then)
-        if c.op == "cmp" and c.l is jf and c.r.op == "const":
-            if c.r.value is None and br.op == "closure":
-                res = strip_seq(world.ev.apply(br, [T("sym", name="g", role="g"), T("sym", name="ans", role="ans"), T("star", x=T("rest", start=0))], {}, [T("kwrest")]))
-                ok_none = _is_vspace_zeros(res, lambda t: t.op == "sym" and t.get("role") == "ans")
-            elif c.r.value == "same" and br.op == "closure":
-                gs = T("sym", name="g", role="g")
-                rest0 = T("rest", start=0)
-                kwr = T("kwrest")
-                res = strip_seq(world.ev.apply(br, [gs, T("sym", name="ans", role="ans"), T("star", x=rest0)], {}, [kwr]))
-                ok_same = _is_same_call(res, fun, argnum, gs, rest0, kwr)
-        elif c.op == "call" and is_call_to(c, "builtins.callable"):
-            ok_pass = br is jf and strip_seq(cur.other).op == "raise"
-        cur = strip_seq(cur.other)
-    for ok, name, why, wit in (
-        (ok_none, "translate_jvp(None) -> zeros of vspace(ans)", "a None JVP rule does not give vspace(ans).zeros()", "forward mode through a primitive with a None rule whose output space differs from the tangent's"),
-        (ok_same, "translate_jvp('same') -> fun(*subval(args, argnum, g), **kwargs)", "'same' does not substitute the tangent at *argnum* and pass the keywords on", "a 'same' rule registered for argnum 1, or a call with keyword options (axis=...)"),
-        (ok_pass, "translate_jvp: callable passes through, anything else raises", "translate_jvp no longer returns the rule unchanged / raises for a malformed spec", "defjvp with a malformed rule"),
-    ):
-        rule = "A13.zero" if "None" in name else ("A13.align" if "same" in name else "A6.raise")
-        if ok:
-            ctx.ob(rule, name, True, loc)
+    # --- translate_vjp / translate_jvp: classify every path by the atoms it decides
+    for which in ("vjp", "jvp"):
+        r, syms, m, node, sc = eval_function(world, CORE, f"translate_{which}")
+        loc = loc_of(m, node)
+        r = unseq(expand(ev, r, KEEP))
+        argnum, fun, rf = syms["argnum"], syms["fun"], syms[f"{which}fun"]
+        is_none_a = lambda a: a.op == "cmp" and a.opname in ("Is", "Eq") and ((a.l is rf and _is_none(a.r)) or (a.r is rf and _is_none(a.l)))
+        is_same_a = lambda a: a.op == "cmp" and a.opname == "Eq" and ((a.l is rf and a.r.op == "const" and a.r.value == "same") or (a.r is rf and a.l.op == "const" and a.l.value == "same"))
+        is_call_a = lambda a: is_call_to(a, "builtins.callable") and len(a.args) == 1 and a.args[0] is rf
+        got = {"none": [], "same": [], "pass": [], "other": []}
+        for c in cases(r):
+            if c.pol(is_none_a) is True:
+                got["none"].append(c)
+            elif which == "jvp" and c.pol(is_same_a) is True:
+                got["same"].append(c)
+            elif c.pol(is_call_a) is True:
+                got["pass"].append(c)
+            else:
+                got["other"].append(c)
+        gs, ans_s, rest0, kwr = T("sym", name="g", role="g"), T("sym", name="ans", role="ans"), T("rest", start=0), T("kwrest")
+        # None rule
+        ok_none = bool(got["none"])
+        for c in got["none"]:
+            clo = c.leaf
+            if clo.op != "closure":
+                ok_none = False
+                continue
+            if which == "vjp":
+                made = ev.apply(clo, [ans_s, T("star", x=rest0)], {}, [kwr])
+                res = unseq(expand(ev, apply_value(ev, made, [gs]), KEEP))
+                ok_none = ok_none and _is_vspace_zeros(res, lambda t: t.op == "sub" and t.obj.op == "rest" and t.obj.start == 0 and t.idx is argnum)
+            else:
+                res = unseq(expand(ev, ev.apply(clo, [gs, ans_s, T("star", x=rest0)], {}, [kwr]), KEEP))
+                ok_none = ok_none and _is_vspace_zeros(res, lambda t: t is ans_s)
+        if which == "vjp":
+            nm, why, wit = "translate_vjp(None) -> zeros of vspace(args[argnum])", "a None VJP rule does not give vspace(args[argnum]).zeros()", "a primitive with a None rule whose arguments have different shapes: the zero has another argument's space"
+            key = "autograd.core.translate_vjp:none"
         else:
-            ctx.fail(rule, name, "autograd.core.translate_jvp:" + name.split(" ")[0], loc, why, wit)
-    # def_linear
-    m, node = world.repo.find_def(CORE, "def_linear")
-    lam = [n for n in ast.walk(node) if isinstance(n, ast.Lambda)]
+            nm, why, wit = "translate_jvp(None) -> zeros of vspace(ans)", "a None JVP rule does not give vspace(ans).zeros()", "forward mode through a primitive with a None rule whose output space differs from the tangent's"
+            key = "autograd.core.translate_jvp:translate_jvp(None)"
+        if ok_none:
+            ctx.ob("A13.zero", nm, True, loc)
+        else:
+            ctx.fail("A13.zero", nm if which == "jvp" else "translate_vjp:none", key, loc, why, wit)
+        # 'same'
+        if which == "jvp":
+            ok_same = bool(got["same"])
+            for c in got["same"]:
+                clo = c.leaf
+                if clo.op != "closure":
+                    ok_same = False
+                    continue
+                res = unseq(expand(ev, ev.apply(clo, [gs, ans_s, T("star", x=rest0)], {}, [kwr]), KEEP))
+                ok_same = ok_same and _is_same_call(res, fun, argnum, gs, rest0, kwr)
+            nm = "translate_jvp('same') -> fun(*subval(args, argnum, g), **kwargs)"
+            if ok_same:
+                ctx.ob("A13.align", nm, True, loc)
+            else:
+                ctx.fail("A13.align", nm, "autograd.core.translate_jvp:translate_jvp('same')", loc, "'same' does not substitute the tangent at *argnum* and pass the keywords on", "a 'same' rule registered for argnum 1, or a call with keyword options (axis=...)")
+        # callable passes through, everything else raises
+        ok_pass = bool(got["pass"]) and all(c.leaf is rf for c in got["pass"]) and bool(got["other"]) and all(c.leaf.op == "raise" for c in got["other"])
+        nm = f"translate_{which}: callable passes through, anything else raises"
+        if ok_pass:
+            ctx.ob("A6.raise", nm, True, loc)
+        else:
+            ctx.fail("A6.raise", nm if which == "jvp" else "translate_vjp:other", "autograd.core.translate_vjp:other" if which == "vjp" else "autograd.core.translate_jvp:translate_jvp:", loc, f"translate_{which} no longer returns the rule unchanged / raises for a malformed spec", f"def{which} with a malformed rule")
+    # def_linear: the rule handed to defjvp_argnum (lambda or def)
+    r2, syms2, m, node, sc2 = eval_function(world, CORE, "def_linear")
     ok = False
-    if lam:
-        r2, syms2, m2, node2, sc2 = eval_function(world, CORE, "def_linear")
-        for t in world.ev.effects[-20:]:
-            pass
-        clo = T("closure", lam[0], m, fnode=lam[0], scope=sc2, bound=[], boundkw={})
-        an, gs, rest0, kwr = T("sym", name="argnum", role="argnum"), T("sym", name="g", role="g"), T("sym", name="args", role="param"), T("sym", name="kwargs", role="param")
-        res = strip_seq(world.ev.apply(clo, [an, gs, T("sym", name="ans", role="ans"), rest0, kwr], {}, []))
-        ok = _is_same_call(res, syms2["fun"], an, gs, rest0, kwr)
+    regs = [t for e in sc2.effects for t in walk(e) if is_call_to(t, "autograd.core.defjvp_argnum")]
+    if len(regs) == 1 and len(regs[0].args) == 2 and regs[0].args[0] is syms2["fun"]:
+        clo, pre, prekw = ev.as_closure(regs[0].args[1])
+        if clo is not None and not pre and not prekw:
+            an, gs, rest0, kwr = T("sym", name="argnum", role="argnum"), T("sym", name="g", role="g"), T("sym", name="args", role="param"), T("sym", name="kwargs", role="param")
+            res = unseq(expand(ev, ev.apply(clo, [an, gs, T("sym", name="ans", role="ans"), rest0, kwr], {}, []), KEEP))
+            ok = _is_same_call(res, syms2["fun"], an, gs, rest0, kwr)
     if ok:
         ctx.ob("A13.align", "def_linear -> fun(*subval(args, argnum, g), **kwargs)", True, loc_of(m, node))
     else:
@@ -281,73 +340,59 @@ def backward_pass(ctx, world):
         if other_writes:
             problems.append(f"outgrads written by `{norm_text(other_writes[0])[:60]}`")
         n_ok += 1
-    # the vjp call's argument derives from outgrads.pop/get(node) [0]
-    vcalls = [c for c in ast.walk(main) if isinstance(c, ast.Call) and isinstance(c.func, ast.Attribute) and c.func.attr == "vjp"]
-    src_ok = False
-    if len(vcalls) >= 1:
-        a = vcalls[0].args[0] if vcalls[0].args else None
-        def derives(a):
-            if isinstance(a, ast.Subscript) and isinstance(a.slice, ast.Constant) and a.slice.value == 0:
-                return derives_pair(a.value)
-            return False
-        def derives_pair(v):
-            if isinstance(v, ast.Call) and isinstance(v.func, ast.Attribute) and isinstance(v.func.value, ast.Name) and v.func.value.id == og and v.func.attr in ("pop", "get") and v.args and isinstance(v.args[0], ast.Name) and v.args[0].id == nodev:
+    # ---- term level: data flow of one iteration (insensitive to naming / unpacking / helper extraction)
+    rt, syms, m_, node_, sc = eval_function(world, CORE, "backward_pass")
+    rt = unseq(rt) if rt is not None else None
+    g_s, end_s = syms[gp], syms[endp]
+    outer = sc.lookup(og)
+    if outer is not None and outer.op == "loop" and outer.get("it") is not None:
+        tp = outer.it
+        elem_of = lambda t, src: t.op == "iterelem" and t.src is src
+        is_outer_var = lambda t: t.op == "loopvar" and t.name == og and t.node is outer.node
+        def is_entry(t):
+            # outgrads.pop(node) / outgrads.get(node) / outgrads[node]   (the node's flagged cotangent)
+            if t.op == "call" and t.fn.op == "attr" and t.fn.name in ("pop", "get") and is_outer_var(t.fn.obj) and len(t.args) >= 1 and elem_of(t.args[0], tp):
                 return True
-            if isinstance(v, ast.Subscript) and isinstance(v.value, ast.Name) and v.value.id == og and isinstance(v.slice, ast.Name) and v.slice.id == nodev:
-                return True
-            if isinstance(v, ast.Name):
-                for st in main.body:
-                    if isinstance(st, ast.Assign) and any(isinstance(t, ast.Name) and t.id == v.id for t in st.targets):
-                        return derives_pair(st.value)
-            return False
-        src_ok = derives(a) if a is not None else False
-    if src_ok:
-        ctx.ob("A13.once", "backward_pass: node.vjp receives component 0 of outgrads[node]", True, loc)
-    else:
-        problems.append("node.vjp's argument is not component 0 of the node's outgrads entry")
-    # inner loop: for parent, ingrad in zip(node.parents, ingrads): outgrads[parent] = add_outgrads(outgrads.get(parent), ingrad)
-    inner = [st for st in main.body if isinstance(st, ast.For)]
-    edge_ok = False
-    if len(inner) == 1:
-        lp = inner[0]
-        it = lp.iter
-        tgt = lp.target
-        if isinstance(it, ast.Call) and isinstance(it.func, ast.Name) and it.func.id == "zip" and len(it.args) == 2 and isinstance(tgt, ast.Tuple) and len(tgt.elts) == 2:
-            a0, a1 = it.args
-            pv, iv = [e.id if isinstance(e, ast.Name) else None for e in tgt.elts]
-            par_ok = isinstance(a0, ast.Attribute) and a0.attr == "parents" and isinstance(a0.value, ast.Name) and a0.value.id == nodev
-            ing_ok = False
-            if isinstance(a1, ast.Name):
-                for st in main.body:
-                    if isinstance(st, ast.Assign) and any(isinstance(t, ast.Name) and t.id == a1.id for t in st.targets):
-                        ing_ok = st.value in vcalls
-            elif a1 in vcalls:
-                ing_ok = True
-            stores = [st for st in lp.body if isinstance(st, ast.Assign)]
-            if par_ok and ing_ok and len(lp.body) == 1 and len(stores) == 1:
-                st = stores[0]
-                t = st.targets[0]
-                v = st.value
-                t_ok = isinstance(t, ast.Subscript) and isinstance(t.value, ast.Name) and t.value.id == og and isinstance(t.slice, ast.Name) and t.slice.id == pv
-                f = world.repo.resolve_expr(m, v.func) if isinstance(v, ast.Call) else None
-                v_ok = f is not None and f.qual == "autograd.core.add_outgrads" and len(v.args) == 2
-                if v_ok:
+            return t.op == "sub" and is_outer_var(t.obj) and elem_of(t.idx, tp)
+        is_cot = lambda t: t.op == "sub" and t.idx.op == "const" and t.idx.value == 0 and is_entry(t.obj)
+        def is_vjp_call(t):
+            return t.op == "call" and t.fn.op == "attr" and t.fn.name == "vjp" and elem_of(t.fn.obj, tp) and len(t.args) == 1 and not t.kw
+        vcs = [t for t in walk(outer.next) if is_vjp_call(t)]
+        if vcs and all(is_cot(t.args[0]) for t in vcs):
+            ctx.ob("A13.once", "backward_pass: node.vjp receives component 0 of outgrads[node]", True, loc)
+        else:
+            problems.append("node.vjp's argument is not component 0 of the node's outgrads entry")
+        inner = outer.next
+        edge_ok = False
+        if inner is not None and inner.op == "loop" and inner.get("it") is not None and is_outer_var(inner.init):
+            z = inner.it
+            zok = is_call_to(z, "builtins.zip") and len(z.args) == 2 and not z.kw and z.args[0].op == "attr" and z.args[0].name == "parents" and elem_of(z.args[0].obj, tp) and is_vjp_call(z.args[1])
+            is_inner_var = lambda t: t.op == "loopvar" and t.name == og and t.node is inner.node
+            e_par = lambda t: t.op == "sub" and elem_of(t.obj, z) and t.idx.op == "const" and t.idx.value == 0
+            e_ing = lambda t: t.op == "sub" and elem_of(t.obj, z) and t.idx.op == "const" and t.idx.value == 1
+            st_ = inner.next
+            if zok and st_ is not None and st_.op == "store" and is_inner_var(st_.obj) and e_par(st_.idx):
+                v = st_.val
+                if is_call_to(v, "autograd.core.add_outgrads") and len(v.args) == 2 and not v.kw:
                     p0, p1 = v.args
-                    prev_ok = isinstance(p0, ast.Call) and isinstance(p0.func, ast.Attribute) and p0.func.attr == "get" and isinstance(p0.func.value, ast.Name) and p0.func.value.id == og and len(p0.args) == 1 and isinstance(p0.args[0], ast.Name) and p0.args[0].id == pv
-                    v_ok = prev_ok and isinstance(p1, ast.Name) and p1.id == iv
-                edge_ok = t_ok and v_ok
-    if edge_ok:
-        ctx.ob("A13.once", "backward_pass: each (parent, ingrad) edge -> exactly one outgrads[parent] = add_outgrads(outgrads.get(parent), ingrad)", True, loc)
+                    prev_ok = p0.op == "call" and p0.fn.op == "attr" and p0.fn.name == "get" and is_inner_var(p0.fn.obj) and len(p0.args) in (1, 2) and e_par(p0.args[0]) and (len(p0.args) == 1 or _is_none(p0.args[1])) and not p0.kw
+                    edge_ok = prev_ok and e_ing(p1)
+        if edge_ok:
+            ctx.ob("A13.once", "backward_pass: each (parent, ingrad) edge -> exactly one outgrads[parent] = add_outgrads(outgrads.get(parent), ingrad)", True, loc)
+        else:
+            problems.append("the per-edge accumulation is not `for parent, ingrad in zip(node.parents, ingrads): outgrads[parent] = add_outgrads(outgrads.get(parent), ingrad)`")
+        # return value: component 0 of the entry popped in the last iteration
+        def last_of(t, pred):
+            return t is not None and t.op == "loop" and t.node is outer.node and t.next is not None and pred(t.next)
+        ret_ok = rt is not None and ((rt.op == "sub" and rt.idx.op == "const" and rt.idx.value == 0 and last_of(rt.obj, is_entry)) or last_of(rt, is_cot))
     else:
         problems.append("the per-edge accumulation is not `for parent, ingrad in zip(node.parents, ingrads): outgrads[parent] = add_outgrads(outgrads.get(parent), ingrad)`")
+        ret_ok = False
     if not problems:
         ctx.ob("A13.once", f"backward_pass: node.vjp called exactly once on each of {n_ok} path(s) of an iteration; no other writer of outgrads", True, loc)
     for pb in sorted(set(problems)):
         ctx.fail("A13.once", f"backward_pass:{pb[:50]}", f"{q}|{pb[:70]}", loc, pb, "a graph with fan-out (a value used by two operations) or a primitive with two differentiated arguments: a contribution is dropped, duplicated or routed to the wrong parent")
-    # return value: component 0 of the last popped entry
-    rets = [st for st in fn.body if isinstance(st, ast.Return)]
-    ok = len(rets) == 1 and isinstance(rets[0].value, ast.Subscript) and isinstance(rets[0].value.slice, ast.Constant) and rets[0].value.slice.value == 0
-    if ok:
+    if ret_ok:
         ctx.ob("A13.once", "backward_pass: returns the cotangent component (not the (value, flag) pair)", True, loc)
     else:
         ctx.fail("A13.once", "backward_pass:return", f"{q}:return", loc, "backward_pass does not return component 0 of the root's outgrads entry", "every reverse-mode call")
@@ -985,28 +1030,36 @@ def dispatch(ctx, world):
             ctx.fail("A13.align", "defvjp:generic", f"{q}:generic", loc, f"the generic path is not `vjps = [vjps_dict[a](ans,*args,**kwargs) for a in argnums]; lambda g: (vjp(g) for vjp in vjps)` (found {str(res)[:120]})", "a primitive with three or more differentiated arguments")
     ctx.floor("A13.align defvjp branches", checked, 3)
     # vjps_dict = {argnum: translate_vjp(maker, fun, argnum) for argnum, maker in zip(argnums, makers)}
-    for fname, tr in (("defvjp", "translate_vjp"), ("defjvp", "translate_jvp")):
-        m2, fn = world.repo.find_def(CORE, fname)
+    for fname, tr, dname in (("defvjp", "translate_vjp", "vjps_dict"), ("defjvp", "translate_jvp", "jvps_dict")):
+        rr, sy, m2, fn, scd = eval_function(world, CORE, fname)
+        kwv, mk_s, fun_s = sy[fn.args.kwarg.arg] if fn.args.kwarg else None, sy[fn.args.vararg.arg] if fn.args.vararg else None, sy[fn.args.args[0].arg]
+        # the dict captured by the registered dispatcher
+        inner = [st for st in fn.body if isinstance(st, ast.FunctionDef)]
+        d = None
+        for nm_, v_ in scd.vars.items():
+            if v_.op == "comp" and v_.get("kind") == "DictComp":
+                d = v_
         okz = False
-        for x in ast.walk(fn):
-            if isinstance(x, ast.DictComp) and len(x.generators) == 1:
-                gen = x.generators[0]
-                it = gen.iter
-                if isinstance(it, ast.Call) and isinstance(it.func, ast.Name) and it.func.id == "zip" and len(it.args) == 2 and isinstance(gen.target, ast.Tuple) and len(gen.target.elts) == 2:
-                    an, mk = [e.id for e in gen.target.elts]
-                    a0 = it.args[0]
-                    a1 = it.args[1]
-                    src_ok = isinstance(a0, ast.Name) and isinstance(a1, ast.Name) and a1.id == fn.args.vararg.arg
-                    # argnums = kwargs.get("argnums", count())
-                    def_ok = False
-                    for st in fn.body:
-                        if isinstance(st, ast.Assign) and isinstance(st.targets[0], ast.Name) and st.targets[0].id == a0.id and isinstance(st.value, ast.Call) and isinstance(st.value.func, ast.Attribute) and st.value.func.attr == "get":
-                            c = st.value
-                            def_ok = len(c.args) == 2 and isinstance(c.args[0], ast.Constant) and c.args[0].value == "argnums" and isinstance(c.args[1], ast.Call) and isinstance(c.args[1].func, ast.Name) and c.args[1].func.id == "count" and not c.args[1].args
-                    key_ok = isinstance(x.key, ast.Name) and x.key.id == an
-                    v = x.value
-                    val_ok = isinstance(v, ast.Call) and isinstance(v.func, ast.Name) and v.func.id == tr and len(v.args) == 3 and isinstance(v.args[0], ast.Name) and v.args[0].id == mk and isinstance(v.args[2], ast.Name) and v.args[2].id == an
-                    okz = src_ok and def_ok and key_ok and val_ok
+        if d is not None and kwv is not None and mk_s is not None and not d.conds:
+            z = d.src
+            def is_argnums(t):
+                # kwargs.get("argnums", count())  |  kwargs["argnums"] if "argnums" in kwargs else count()
+                is_count = lambda c: is_call_to(c, "itertools.count") and not c.args and not c.kw
+                if t.op == "call" and t.fn.op == "attr" and t.fn.name == "get" and t.fn.obj is kwv and len(t.args) == 2 and t.args[0].op == "const" and t.args[0].value == "argnums":
+                    return is_count(t.args[1])
+                if t.op == "if":
+                    a, pol = atom(t.cond)
+                    if a.op == "cmp" and a.opname == "In" and a.l.op == "const" and a.l.value == "argnums" and a.r is kwv:
+                        yes, no = (t.then, t.other) if pol else (t.other, t.then)
+                        return yes.op == "sub" and yes.obj is kwv and yes.idx.op == "const" and yes.idx.value == "argnums" and is_count(no)
+                return False
+            zok = is_call_to(z, "builtins.zip") and len(z.args) == 2 and not z.kw and is_argnums(z.args[0]) and z.args[1] is mk_s
+            e_an = lambda t: t.op == "sub" and t.obj.op == "iterelem" and t.obj.src is z and t.idx.op == "const" and t.idx.value == 0
+            e_mk = lambda t: t.op == "sub" and t.obj.op == "iterelem" and t.obj.src is z and t.idx.op == "const" and t.idx.value == 1
+            el = d.elt
+            if zok and el.op == "tuple" and len(el.elts) == 2 and e_an(el.elts[0]):
+                v = el.elts[1]
+                okz = is_call_to(v, f"autograd.core.{tr}") and len(v.args) == 3 and not v.kw and e_mk(v.args[0]) and v.args[1] is fun_s and e_an(v.args[2])
         if okz:
             ctx.ob("A13.align", f"{fname}: rules keyed by zip(argnums= or 0,1,2.., makers) and translated with their own argnum", True, loc_of(m2, fn))
         else:
@@ -1057,6 +1110,14 @@ def dispatch(ctx, world):
         ctx.ob("A13.align", "sum_outgrads = reduce(add_outgrads, gs, None)[0]", True, loc_of(m4, node4))
     else:
         ctx.fail("A13.align", "sum_outgrads", "autograd.core.sum_outgrads", loc_of(m4, node4), "forward-mode tangents are not summed with reduce(add_outgrads, gs, None)[0]", "forward mode through a primitive with two differentiated arguments")
+
+
+def _isbox_known_true(test, taken):
+    """does taking (taken=True) / not taking the branch on `test` establish isbox(...)?"""
+    pol = bool(taken)
+    while isinstance(test, ast.UnaryOp) and isinstance(test.op, ast.Not):
+        test, pol = test.operand, not pol
+    return pol and isinstance(test, ast.Call) and isinstance(test.func, ast.Name) and test.func.id == "isbox"
 
 
 def _resolve_unpack(t):
@@ -1111,7 +1172,7 @@ def raise_discipline(ctx, world):
                             if last.kind == "return":
                                 v = last.node.value
                                 rec = isinstance(v, ast.Call) and isinstance(v.func, ast.Name) and v.func.id == "vspace"
-                                guarded = any(e.kind == "cond" and e.extra is True and isinstance(e.node, ast.Call) and isinstance(e.node.func, ast.Name) and e.node.func.id == "isbox" for e in p)
+                                guarded = any(e.kind == "cond" and _isbox_known_true(e.node, e.extra) for e in p)
                                 ok = ok and rec and guarded
                             else:
                                 ok = False
@@ -1129,38 +1190,34 @@ def raise_discipline(ctx, world):
         m, fn = world.repo.find_def(CORE, f"{cls}.__init__")
         ps = [a.arg for a in fn.args.args]
         ok = len(ps) == 7
-        call = None
+        okp = False
         if ok:
-            for x in ast.walk(fn):
-                if isinstance(x, ast.Call) and isinstance(x.func, ast.Name):
-                    # the maker variable assigned from table[fun]
-                    for st in ast.walk(fn):
-                        if isinstance(st, ast.Assign) and isinstance(st.targets[0], ast.Name) and st.targets[0].id == x.func.id and isinstance(st.value, ast.Subscript):
-                            base = st.value.value
-                            if isinstance(base, ast.Name) and base.id == tab and isinstance(st.value.slice, ast.Name) and st.value.slice.id == ps[2]:
-                                call = x
-            if call is not None:
-                names = [a.id if isinstance(a, ast.Name) else None for a in call.args]
-                if extra == 0:
-                    ok = names == [ps[5], ps[1], ps[3], ps[4]]
-                else:
-                    ok = len(names) == 5 and names[0] == ps[5] and names[2:] == [ps[1], ps[3], ps[4]] and names[1] is not None
-                    # parent_gs = [parent.g for parent in parents]
-                    okg = False
-                    for st in fn.body:
-                        if isinstance(st, ast.Assign) and isinstance(st.targets[0], ast.Name) and st.targets[0].id == names[1] and isinstance(st.value, ast.ListComp):
-                            lc = st.value
-                            okg = isinstance(lc.elt, ast.Attribute) and lc.elt.attr == "g" and isinstance(lc.generators[0].iter, ast.Name) and lc.generators[0].iter.id == ps[6]
-                    ok = ok and okg
-            else:
-                ok = False
+            n0 = len(world.ev.effects)
+            rr, sy, m_, fn_, sc_ = eval_function(world, CORE, f"{cls}.__init__")
+            stores = [e[1] for e in world.ev.effects[n0:] if e[0] == "setattr" and e[1].obj is sy[ps[0]]]
+            value, fun, args, kwargs, pargn, parents = [sy[x] for x in ps[1:]]
+            slot = "vjp" if extra == 0 else "g"
+            tgt = [st_ for st_ in stores if st_.idx.value == slot]
+            ok = len(tgt) == 1
+            if ok:
+                c = unseq(expand(world.ev, tgt[0].val, KEEP))
+                is_maker = lambda t: t.op == "sub" and t.obj.op == "ref" and t.obj.ref.qual == f"autograd.core.{tab}" and t.idx is fun
+                ok = c.op == "call" and is_maker(c.fn) and not c.kw and not c.dstar
+                if ok and extra == 0:
+                    ok = len(c.args) == 4 and c.args[0] is pargn and c.args[1] is value and c.args[2] is args and c.args[3] is kwargs
+                elif ok:
+                    ok = len(c.args) == 5 and c.args[0] is pargn and c.args[2] is value and c.args[3] is args and c.args[4] is kwargs
+                    pg = c.args[1] if ok else None
+                    # parent_gs = [parent.g for parent in parents]  (in order, unfiltered)
+                    if ok and pg.op == "call" and pg.fn.op == "ref" and pg.fn.ref.qual in ("builtins.list", "builtins.tuple") and len(pg.args) == 1:
+                        pg = pg.args[0]
+                    ok = ok and pg.op == "comp" and not pg.conds and pg.get("kind") in ("ListComp", "GeneratorExp") and pg.src is parents and pg.elt.op == "attr" and pg.elt.name == "g" and pg.elt.obj.op == "iterelem" and pg.elt.obj.src is parents
+            okp = any(st_.idx.value == "parents" and st_.val is parents for st_ in stores)
         if ok:
             ctx.ob("A2.slot", f"{cls}.__init__: maker = {tab}[fun]; maker(parent_argnums, {'parent_gs, ' if extra else ''}value, args, kwargs)", True, loc_of(m, fn))
         else:
             ctx.fail("A2.slot", f"{cls}.__init__", f"autograd.core.{cls}.__init__:slots", loc_of(m, fn), f"{cls}.__init__ does not look the maker up by `fun` and call it with (parent_argnums, {'parent_gs, ' if extra else ''}value, args, kwargs) in that order", "any primitive call: rules receive the answer where they expect the arguments")
         if cls == "VJPNode":
-            # self.parents = parents
-            okp = any(isinstance(st, ast.Assign) and isinstance(st.targets[0], ast.Attribute) and st.targets[0].attr == "parents" and isinstance(st.value, ast.Name) and st.value.id == ps[6] for st in fn.body)
             if okp:
                 ctx.ob("A2.slot", "VJPNode.__init__: self.parents = parents", True, loc_of(m, fn))
             else:
